@@ -19,8 +19,10 @@ EXPLANATION = (
     "bases: dot.rhophi_rhophi, the radial outputs of add/subtract.rhophi_rhophi and of scale.rhophi agree "
     "with the Cartesian kernels (rule angle_addition).  Method layer: neg2D/3D/4D = scale.dispatch(-1, self); "
     "abs/square/sqrt/cbrt/power ufunc overloads use rho|mag|tau by dimension (object, NumPy, SymPy "
-    "__array_ufunc__ and the Awkward behavior table).  Not decided: azimuth output of polar add/subtract "
-    "(needs arctan2 addition identities); float rounding."
+    "__array_ufunc__ and the Awkward behavior table).  Specialised variants (C11.specialised-variants): every frozen "
+    "non-Cartesian base of add/subtract/scale/dot/cross/unit is denoted in Cartesian generators and proved equal to "
+    "the Cartesian kernel by normal form (including the azimuth of polar add/subtract and the sign/turn handling of "
+    "scale, per sign of the factor); a variant is reported only with a concrete differing point.  Not decided: float rounding."
 )
 
 DIMS = {
@@ -162,5 +164,25 @@ def run(ctx):
     from ..ufuncs import norm_ufunc_obligations
 
     norm_ufunc_obligations(ctx, "C11.norm-ufuncs")
-    ctx.decline("azimuth output of planar add/subtract.rhophi_rhophi (arctan2 addition identities are outside the ring fragment)")
+    # ---- every specialised (non-Cartesian) base of the anchored operations denotes the Cartesian kernel the laws were proved on
+    import json
+
+    from .. import denote
+    from ..core import VERIF
+
+    ctx.rule("C11.specialised-variants", "for add, subtract, scale, dot, cross, unit (2D/3D/4D): " + denote.RULE_DOC)
+    bases = json.loads((VERIF / "tables" / "bases.json").read_text())
+    mods = {f"{g}.{op}" for g in ("planar", "spatial", "lorentz") for op in ("add", "subtract", "scale", "dot", "cross", "unit")}
+    n = 0
+    und = []
+    for rec in denote.base_agreement(L, bases, mods):
+        n += rec.new_pair
+        if rec.status == "undecided":
+            und.append(rec.construct)
+            continue
+        ctx.ob("C11.specialised-variants", rec.construct, rec.status == "proved", rec.message, rec.witness, rec.where, sample=rec.sample)
+    ctx.anchor("specialised variants compared with their Cartesian kernel", n, 30)
+    ctx.analysed["specialised_variants_undecided"] = und
+    if und:
+        ctx.decline("C11.specialised-variants left undecided (no proof, no differing point): " + ", ".join(und))
     ctx.decline("float rounding; laws for non-Cartesian signatures follow from C01 (same template)")
